@@ -31,6 +31,7 @@ type Cfg struct {
 	Invalid     string    `json:"invalid,omitempty"`     // invalid-configuration run: Start() must refuse
 	Rig         string    `json:"rig,omitempty"`         // how the deck order was chosen (informational)
 	ViaBackend  bool      `json:"via_backend,omitempty"` // the hand is created through table.NativeBackend.CreateGame
+	Twin        bool      `json:"twin,omitempty"`        // C07 determinism clause: twin execution at the end of the run (twin.go)
 }
 
 func (c *Cfg) N() int { return len(c.Seats) }
@@ -208,6 +209,7 @@ func DrawCfg(r *sim.RNG) *Cfg {
 	}
 	c.Deck, c.Rig = drawDeck(r, c)
 	c.ViaBackend = r.Chance(0.25)
+	c.Twin = r.Chance(0.12)
 	return c
 }
 
